@@ -1,1 +1,78 @@
-/- C18 — property theorems (stub: the slice is not built yet). -/
+import GB.C18.Proofs
+import GB.Generated.Lockset
+/-
+  C18 — property theorems. PARTIAL by nature (DESIGN.md 5.18): data-race freedom over all
+  multi-core schedules is a property of the runtime; what is proved here is
+   (1) the lock discipline of the regenerated access table: every conflicting pair of accesses to a
+       plain field of the shared structs is ordered by a common mutex or by a listed confinement row,
+       except the explicitly listed known-unprotected pairs (genuine finding, see known_findings.json);
+   (2) why (1) suffices for mutex-protected pairs: in every well-formed mutex trace two accesses by
+       different threads under a common mutex are separated by an Unlock/Lock pair (a happens-before edge).
+  The single-owner use of streams by Forward is an invariant of the Forward LTS (GB.C01/C02).
+-/
+open GB GB.C18
+
+def C18_table : List Acc := GB.Generated.accesses.map (fun a => ⟨a.field, a.fn, a.write, a.locks, a.fresh⟩)
+
+/-- The extractor type-checked every package without errors. -/
+theorem C18_lockset_loaded : GB.Generated.locksetLoadErrors = 0 := by decide
+
+/-- Lock discipline over the table regenerated from the sources in this run.
+    Full statement wanted: `∀ a b ∈ table, conflict a b → protectedPair a b`; it FAILS on the current
+    tree (see `C18_writtenStatus_unprotected`), so the proved statement excuses exactly the listed pairs. -/
+theorem C18_lockset_partial : allPairsOk C18_table = true := by decide +kernel
+
+/-- Unfolded form of the above. -/
+theorem C18_lockset_partial_forall (a b : Acc) (ha : a ∈ C18_table) (hb : b ∈ C18_table)
+    (hc : conflict a b = true) (hk : isKnown a b = false) : protectedPair a b = true := by
+  have h := C18_lockset_partial
+  unfold allPairsOk at h
+  rw [List.all_eq_true] at h
+  have h1 := h a ha
+  rw [List.all_eq_true] at h1
+  have h2 := h1 b hb
+  simp only [pairOk, hc, hk, Bool.not_true, Bool.false_or, Bool.or_false] at h2
+  exact h2
+
+/-- Negative witness (kernel-checked): on the current tree the response wrapper's `writtenStatus`
+    flag is written by the helper goroutine of a cancelled Send and read by the handler's error path
+    with no ordering between them. -/
+theorem C18_writtenStatus_unprotected :
+    ∃ a b, a ∈ C18_table ∧ b ∈ C18_table ∧ conflict a b = true ∧ protectedPair a b = false := by
+  refine ⟨⟨"webbridge.responseWrapper.writtenStatus", "webbridge.responseWrapper.Write", true, [], false⟩,
+          ⟨"webbridge.responseWrapper.writtenStatus", "webbridge.writeError", false, [], false⟩, ?_, ?_, ?_, ?_⟩
+  · decide +kernel
+  · decide +kernel
+  · decide
+  · decide
+
+theorem runEv_append (h : Holders) (xs ys : List Ev) :
+    runEv h (xs ++ ys) = (runEv h xs).bind (fun h' => runEv h' ys) := by
+  induction xs generalizing h with
+  | nil => simp [runEv]
+  | cons x xs ih =>
+    simp only [List.cons_append, runEv]
+    cases stepEv h x with
+    | none => simp
+    | some h' => simp [ih]
+
+/-- Why a common mutex is enough: for EVERY well-formed trace (any number of threads, mutexes and
+    events), if thread `t1` performs an access while holding `l` and later a different thread `t2`
+    performs an access while holding `l`, then between the two accesses `t1` released `l` and `t2`
+    acquired it afterwards — the Unlock→Lock edge of the Go memory model orders the accesses. -/
+theorem C18_common_lock_orders (pre mid post : List Ev) (t1 t2 a b l : Nat) (hne : t1 ≠ t2)
+    (h0 hA hB hEnd : Holders)
+    (hpre : runEv h0 pre = some hA) (hheldA : hA l = some t1)
+    (hmid : runEv hA (Ev.acc t1 a :: mid) = some hB) (hheldB : hB l = some t2)
+    (_hrest : runEv hB (Ev.acc t2 b :: post) = some hEnd) :
+    ∃ m1 m2 m3, mid = m1 ++ Ev.rel t1 l :: (m2 ++ Ev.acq t2 l :: m3) := by
+  simp only [runEv, stepEv] at hmid
+  exact release_acquire_between mid hA hB t1 t2 l hne hmid hheldA hheldB
+
+/-- Mutual exclusion itself: two different threads never hold the same mutex (holders is a function). -/
+theorem C18_mutex_exclusive (h : Holders) (l t1 t2 : Nat) (h1 : h l = some t1) (h2 : h l = some t2) : t1 = t2 := by
+  rw [h1] at h2; injection h2
+
+/-- Non-vacuity: a concrete well-formed trace meeting the hypotheses of `C18_common_lock_orders`. -/
+example : runEv (fun _ => none) [Ev.acq 1 7, Ev.acc 1 0, Ev.rel 1 7, Ev.acq 2 7, Ev.acc 2 1, Ev.rel 2 7] ≠ none := by
+  decide
